@@ -359,6 +359,17 @@ func judge(sc Scenario, hist []HOp, final map[int]P) *verdict {
 		if strings.HasPrefix(h.Res, "ok:") && h.Op.K == "u" && h.Op.EA {
 			addsOK[id]++
 		}
+		if h.Op.K == "d" && strings.HasPrefix(h.Res, "ok:") && h.Res != "ok:nil" {
+			// the version a Delete reports it removed is one its own precondition accepts
+			var gone P
+			if err := gone.UnmarshalText([]byte(h.Res[3:])); err == nil {
+				if !checkOK(h.Op.Check, gone, true) || (h.Op.Expect != nil && gone != *h.Op.Expect) {
+					return &verdict{"C02/d/removed-a-version-its-precondition-refuses",
+						fmt.Sprintf("Delete %s reported success and removed %s, a version its expected check / expected value does not accept", h.Op.encode(), gone),
+						"a Delete removes only a version its precondition inspected and accepted", h.Res}
+				}
+			}
+		}
 		if strings.HasPrefix(h.Res, "ok:") && h.Op.pureIncrement() {
 			k, _ := strconv.ParseInt(h.Op.F[1:], 10, 64)
 			p := sum[id]
@@ -761,6 +772,19 @@ func genNested(rng *rand.Rand) Scenario {
 		}
 		outer.Rivals = append(outer.Rivals, rv)
 	}
+	if outer.K == "d" && outer.Check != "" && rng.Intn(3) == 0 {
+		// every attempt of the guarded Delete is invalidated by a writer the guard does not mind (it changes the
+		// other field), the last one by a writer it does mind
+		keep := Op{K: "u", ID: 0, F: "b" + strconv.Itoa(1+rng.Intn(2)), Mask: "b"}
+		last := Op{K: "u", ID: 0, F: "a" + strconv.Itoa(1+rng.Intn(2))}
+		if rng.Intn(3) == 0 {
+			last = Op{K: "u", ID: 0, F: "s" + P{sc.Init["0"].A + 1, 0}.String()}
+		}
+		outer.Rivals = []Op{keep, keep, keep, keep, last}
+		if rng.Intn(3) == 0 {
+			outer.Rivals = append(outer.Rivals, keep)
+		}
+	}
 	outer.RivalAt = []string{"c", "b"}[rng.Intn(2)]
 	sc.Progs = [][]Op{{outer}}
 	if rng.Intn(6) == 0 {
@@ -861,6 +885,7 @@ func nestedWitnesses() []Scenario {
 	inc := func(k int) Op { return Op{K: "u", ID: 0, F: "a" + strconv.Itoa(k)} }
 	vinc := func(k int) Op { return Op{K: "v", ID: valueID, F: "a" + strconv.Itoa(k)} }
 	del := Op{K: "d", ID: 0}
+	incb := Op{K: "u", ID: 0, F: "b1", Mask: "b"}
 	with := func(o Op, at string, rv ...Op) Op { o.Rivals, o.RivalAt = rv, at; return o }
 	one := map[string]P{"0": {1, 0}}
 	val := map[string]P{"9": {1, 0}}
@@ -891,6 +916,10 @@ func nestedWitnesses() []Scenario {
 		mk(one, with(del, "c", inc(1))),
 		mk(one, with(del, "c", inc(1), inc(1), inc(1), inc(1))),
 		mk(one, with(del, "c", inc(1), inc(1), inc(1), inc(1), inc(1))), // five invalidated attempts: Unavailable
+		// ... of a guarded Delete: the guard accepted every version it was shown, the fifth writer stores one it refuses
+		mk(one, with(Op{K: "d", ID: 0, Check: "eq1"}, "c", incb, incb, incb, incb, inc(1))),
+		mk(one, with(Op{K: "d", ID: 0, Check: "ne2", AM: true}, "c", incb, incb, incb, incb, inc(1))),
+		mk(one, with(Op{K: "d", ID: 0, Check: "eq1"}, "c", incb, incb, incb, incb, incb, inc(1))),
 		mk(one, with(del, "c", del, Op{K: "u", ID: 0, EA: true, CIA: true, F: set(7, 0)})),
 		mk(one, with(inc(1), "b", del)),
 		mk(one, with(inc(1), "b", del, inc(1))),
@@ -1077,6 +1106,15 @@ func main() {
 		record(sc, runScheduled(ctl, sc, sched, nil))
 		sc4 := Scenario{Init: map[string]P{"0": {0, 0}}, Progs: [][]Op{{{K: "d", ID: 0}}, {inc, inc, inc, inc}}}
 		record(sc4, runScheduled(ctl, sc4, sched, nil))
+		// ... also when it carries a guard that every version it was shown satisfied and the last writer's does not:
+		// the Delete gives up, whatever it would do instead it has not checked the version that is stored now
+		incb := Op{K: "u", ID: 0, F: "b1", Mask: "b"}
+		for _, guard := range []Op{{K: "d", ID: 0, Check: "eq0"}, {K: "d", ID: 0, Check: "ne1", AM: true}} {
+			scg := Scenario{Init: map[string]P{"0": {0, 0}}, Progs: [][]Op{{guard}, {incb, incb, incb, incb, inc}}}
+			record(scg, runScheduled(ctl, scg, sched, nil))
+			scg2 := Scenario{Init: map[string]P{"0": {0, 0}}, Clock: "f", Progs: [][]Op{{guard}, {incb, incb, incb, incb, incb, inc}}}
+			record(scg2, runScheduled(ctl, scg2, append(append([]int{}, sched...), 1, 1, 1, 0), nil))
+		}
 	}
 	// 2. thorough: every schedule of bigger programs and of random small scenarios
 	if f.Thorough() && stuckHooked < 10 {
